@@ -585,11 +585,13 @@ func scenBlanks(c *Ctx) *eCase {
 	}
 	ec.node("root", "Top {{.msg}}", GInstr{Op: "LOAD", A: "msg", N: 0}, GInstr{Op: "MAP", A: "msg"}, GInstr{Op: "MOUT", A: "lst", B: "1"}, GInstr{Op: "HALT"}, GInstr{Op: "INCMP", A: "lst", B: "1"})
 	ec.node("lst", "fruit\n{{.rows}}", GInstr{Op: "LOAD", A: "rows", N: 0}, GInstr{Op: "MAP", A: "rows"}, GInstr{Op: "MNEXT", A: "nx", B: "11"}, GInstr{Op: "MPREV", A: "pv", B: "22"},
-		GInstr{Op: "MOUT", A: "back", B: "0"}, GInstr{Op: "HALT"}, GInstr{Op: "INCMP", A: ">", B: "11"}, GInstr{Op: "INCMP", A: "<", B: "22"}, GInstr{Op: "INCMP", A: "_", B: "0"})
+		GInstr{Op: "MOUT", A: "back", B: "0"}, GInstr{Op: "MOUT", A: "detail", B: "3"}, GInstr{Op: "HALT"}, GInstr{Op: "INCMP", A: ">", B: "11"}, GInstr{Op: "INCMP", A: "<", B: "22"}, GInstr{Op: "INCMP", A: "_", B: "0"},
+		GInstr{Op: "INCMP", A: "detail", B: "3"})
+	ec.node("detail", "Detail", GInstr{Op: "MOUT", A: "back", B: "0"}, GInstr{Op: "MOUT", A: "top", B: "9"}, GInstr{Op: "HALT"}, GInstr{Op: "INCMP", A: "_", B: "0"}, GInstr{Op: "INCMP", A: "^", B: "9"})
 	ec.catchNode()
 	ec.exts = append(ec.exts, extRule{sym: "msg", callIdx: -1, content: v()}, extRule{sym: "rows", callIdx: -1, content: strings.Join(rows, "\n")})
 	ec.out = []int{0, 60, 80, 90, 120}[r.Intn(5)]
-	ec.inputs = ins("", "1", "11", "11", "22", "11", "0", "1")
+	ec.inputs = ins("", "1", "11", []string{"11", "3"}[r.Intn(2)], "3", "0", "22", "11", "0", "1")
 	return ec
 }
 
